@@ -19,7 +19,11 @@ DIRECTED = ['swp1:0;acq0:0,sig1,wex2,tch0;wai1,swp0:0',
             'swp1:0,swp1:0;acqe0:0,sig1,wex2,tch0,cpy0:1,rst0,tch1;wai1,swp0:0',
             'swp1:0,acq2:0;acq0:0,sig1,wai2,tch0;wai1,swp0:0,sig2,acq1:1,tch1',
             'rgn1,swp1:0,rgn0;rgn1,acq0:0,sig1,wex2,tch0,rgn0;wai1,swp0:0',
-            'swp1:0;acq0:0,sig1,wex2,wex3,tch0;wai1,swp0:0;@2:swp0:0']
+            'swp1:0;acq0:0,sig1,wex2,wex3,tch0;wai1,swp0:0;@2:swp0:0',
+            # node recycling under an acquisition in progress (type-stable free lists, immediate reuse of the address): thread 0 acquires cell 0 while
+            # thread 1 retires the node it points to, is held back (wai) and then publishes a new node - possibly the recycled one - into the same cell
+            'acq0:0,tch0,rst0,acq0:0,tch0;swp0:0,wai1,swp0:0;sig1',
+            'acqe0:0,tch0,cpy0:1,rst0,tch1;swp0:0,wai1,swp0:0,swp0:0;sig1']
 
 
 def guards_needed(prog):
